@@ -315,6 +315,17 @@ func decompose(t *Term, pol bool) []Fact {
 }
 
 func eqFacts(a, b *Term, pol bool) []Fact {
+	// errorsx.WithStack(x) == nil  <=>  x == nil
+	if b.Op == "nil" {
+		for a.Op == "call" && (a.Name == "errorsx.WithStack" || a.Name == "errors.WithStack") && len(a.Args) == 1 {
+			a = a.Args[0]
+		}
+	}
+	if a.Op == "nil" {
+		for b.Op == "call" && (b.Name == "errorsx.WithStack" || b.Name == "errors.WithStack") && len(b.Args) == 1 {
+			b = b.Args[0]
+		}
+	}
 	// subtle.ConstantTimeCompare(x,y) == 1
 	if a.Op == "call" && a.Name == "subtle.ConstantTimeCompare" {
 		if v, ok := b.IntConst(); ok && v == 1 {
